@@ -11,35 +11,38 @@ open RV
     2-byte salt with the high bit set, a non-empty secret and a 16-byte authenticator. -/
 theorem new_ok_iff (H : Hash) (pw salt secret ra : Bytes) :
     (∃ a, newTunnelPassword H pw salt secret ra = .ok a) ↔
-      pw.length ≤ 239 ∧ salt.length = 2 ∧ 128 ≤ (salt.getD 0 0).toNat ∧ secret ≠ [] ∧ ra.length = 16 := by
-  sorry
+      pw.length ≤ 239 ∧ salt.length = 2 ∧ 128 ≤ (salt.getD 0 0).toNat ∧ secret ≠ [] ∧ ra.length = 16 :=
+  newTunnelPassword_ok_iff H pw salt secret ra
 
 theorem new_never_faults (H : Hash) (pw salt secret ra : Bytes) :
-    newTunnelPassword H pw salt secret ra ≠ .fault := by
-  sorry
+    newTunnelPassword H pw salt secret ra ≠ .fault :=
+  newTunnelPassword_ne_fault H pw salt secret ra
 
 /-- It emits exactly the RFC 2868 §3.5 encoding: salt, then the chained xor blocks over the
     length-prefixed, zero-padded password. -/
 theorem new_eq_rfc (H : Hash) (hH : ∀ x, (H x).length = 16) (pw salt secret ra a : Bytes)
     (h : newTunnelPassword H pw salt secret ra = .ok a) :
     a = Rfc2868.tunnelPasswordCipher H pw salt secret ra := by
-  sorry
+  have _ := hH  -- not needed: the correspondence holds for any `H`
+  exact newTunnelPassword_eq_rfc H pw salt secret ra a h
 
 /-- The result together with a tag byte fits in one attribute (253 octets). -/
 theorem fits (H : Hash) (hH : ∀ x, (H x).length = 16) (pw salt secret ra a : Bytes)
     (h : newTunnelPassword H pw salt secret ra = .ok a) :
     a.length + 1 ≤ 253 ∧ a.length = 2 + 16 * ((1 + pw.length + 15) / 16) := by
-  sorry
+  have hl := newTunnelPassword_length H hH pw salt secret ra a h
+  have hp := (newTunnelPassword_ok H pw salt secret ra a h).1
+  exact ⟨by omega, hl⟩
 
 /-- "Too long to fit" is exact: a 240-byte password could not fit (2 + 16·16 + 1 > 253). -/
 theorem limit_is_tight : 2 + 16 * ((1 + 239 + 15) / 16) + 1 ≤ 253 ∧ ¬ (2 + 16 * ((1 + 240 + 15) / 16) + 1 ≤ 253) := by
-  sorry
+  decide
 
 /-- Round trip: same secret and authenticator ⇒ same password and salt. -/
 theorem roundtrip (H : Hash) (hH : ∀ x, (H x).length = 16) (pw salt secret ra a : Bytes)
     (h : newTunnelPassword H pw salt secret ra = .ok a) :
-    tunnelPassword H a secret ra = .ok (pw, salt) := by
-  sorry
+    tunnelPassword H a secret ra = .ok (pw, salt) :=
+  tunnelPassword_roundtrip H hH pw salt secret ra a h
 
 /-- Decryption accepts exactly: length 2+16k (k ≥ 1) within an attribute, non-empty secret, 16-byte
     authenticator, salt high bit, and an embedded length that does not exceed the data. -/
@@ -47,14 +50,14 @@ theorem dec_ok_iff (H : Hash) (hH : ∀ x, (H x).length = 16) (a secret ra : Byt
     (∃ r, tunnelPassword H a secret ra = .ok r) ↔
       18 ≤ a.length ∧ a.length ≤ 252 ∧ (a.length - 2) % 16 = 0 ∧ secret ≠ [] ∧ ra.length = 16 ∧
       128 ≤ (a.getD 0 0).toNat ∧
-      ((tpDecLoop H secret (ra ++ a.take 2) (a.drop 2)).getD 0 0).toNat ≤ a.length - 2 - 1 := by
-  sorry
+      ((tpDecLoop H secret (ra ++ a.take 2) (a.drop 2)).getD 0 0).toNat ≤ a.length - 2 - 1 :=
+  tunnelPassword_ok_iff H hH a secret ra
 
-theorem dec_never_faults (H : Hash) (a secret ra : Bytes) : tunnelPassword H a secret ra ≠ .fault := by
-  sorry
+theorem dec_never_faults (H : Hash) (a secret ra : Bytes) : tunnelPassword H a secret ra ≠ .fault :=
+  tunnelPassword_ne_fault H a secret ra
 
 /-! Non-vacuity (test) -/
 example : ∃ a, newTunnelPassword (fun _ => zeros 16) [1, 2, 3] [0x80, 1] [9] (zeros 16) = .ok a := by
-  sorry
+  exact (newTunnelPassword_ok_iff _ _ _ _ _).mpr ⟨by decide, by decide, by decide, by decide, by decide⟩
 
 end RV.C11
